@@ -557,7 +557,7 @@ class kLeastAbsErrors(pathmodel.AbstractPathModelDAG):
         for u, v, data in self.G.edges(data=True):
             if self.flow_attr in data and (u,v) not in self.edges_to_ignore:
                 if (
-                    abs(data[self.flow_attr] - weight_from_paths[(u, v)])
+                    abs(float(data[self.flow_attr]) - weight_from_paths[(u, v)])
                     > tolerance * max(1,num_paths_on_edges[(u, v)]) + solution_errors[(u, v)]
                 ):
                     utils.logger.debug(
